@@ -99,6 +99,14 @@ pub fn path_sep(c: Cursor<'_>) -> ParsingResult<'_> {
     ])(c)
 }
 
+/// Tries to parse a `->` (which is not a closing `>` of any balanced pair).
+pub fn r_arrow(c: Cursor<'_>) -> ParsingResult<'_> {
+    seq([
+        &mut punct_with_spacing('-', Spacing::Joint),
+        &mut punct('>'),
+    ])(c)
+}
+
 /// Tries to parse a [`punct`] with [`Spacing`].
 pub fn punct_with_spacing(
     p: char,
@@ -142,7 +150,9 @@ pub fn balanced_pair(
         let mut count = 1;
 
         while count != 0 {
-            let (stream, cursor) = if let Some(closing) = close(c) {
+            let (stream, cursor) = if let Some(arrow) = r_arrow(c) {
+                arrow
+            } else if let Some(closing) = close(c) {
                 count -= 1;
                 closing
             } else if let Some(opening) = open(c) {
